@@ -350,7 +350,7 @@ int main(void)
     switch (pre.state) {
     case conn_state_ready: {
 	int want = ((cond & XCM_SO_SENDABLE) ? EPOLLOUT : 0) | ((cond & XCM_SO_RECEIVABLE) ? EPOLLIN : 0);
-	CHECK(g_fd_mod_calls == 1 && (g_fd_mod_event & want) == want, "C04: ready: the data descriptor is watched for everything awaited (no lost wake-up)");
+	CHECK(g_fd_mod_calls >= 1 && (g_fd_mod_event & want) == want, "C04: ready: the data descriptor is watched for everything awaited (no lost wake-up)");
 	CHECK((g_fd_mod_event & ~want) == 0, "C16: ready: the data descriptor is watched for nothing beyond the awaited condition (quiet when idle)");
 	CHECK(g_bell_ringing == 0, "C16: ready: the bell does not ring");
 	WITNESS(cond == 0, "idle: mask 0, no bell");
@@ -381,7 +381,7 @@ int main(void)
     BTS->fd = DATA_FD; BTS->fd_reg_id = FD_REG; BTS->server.created = true;
     S->condition = nd_bool() ? XCM_SO_ACCEPTABLE : 0;
     btcp_update(S);
-    CHECK(g_fd_mod_calls == 1 && g_fd_mod_event == ((S->condition & XCM_SO_ACCEPTABLE) ? EPOLLIN : 0), "C04,C16: server: listen descriptor watched for EPOLLIN exactly while ACCEPTABLE is awaited");
+    CHECK(g_fd_mod_calls >= 1 && g_fd_mod_event == ((S->condition & XCM_SO_ACCEPTABLE) ? EPOLLIN : 0), "C04,C16: server: listen descriptor watched for EPOLLIN exactly while ACCEPTABLE is awaited");
     CHECK(btcp_finish(S) == 0, "C04: a server socket has no outstanding work");
     WITNESS(S->condition == 0, "server idle: mask 0");
     return 0;
